@@ -17,8 +17,9 @@ void harness(void)
     VGROUP vg;
     int32  r;
     H4V_GET(n0); H4V_GET(tag); H4V_GET(ref);
+    n0 = N0; /* member count enumerated at the limits (a symbolic index into a 65536-entry list does not finish); tag/ref symbolic */
     memset(&vg, 0, sizeof vg);
-    vg.nvelt = n0; vg.msize = 65600; vg.tag = TAGS; vg.ref = REFS;
+    vg.nvelt = n0; vg.msize = MSIZE; vg.tag = TAGS; vg.ref = REFS;
     r = vinsertpair(&vg, tag, ref);
     if (r != FAIL) {
         H4V_ASSERT(vg.nvelt == (uint16)(n0 + 1) && vg.nvelt > n0, "C20.K2.members.wrap: the 16-bit member count wrapped around");
